@@ -376,6 +376,7 @@ func Run(c *core.Ctx) {
 	var alphaRet float64
 	var lsP []float64
 	lsMax := 0.0
+	var gx0 ad.DenseFloat64Vector // the starting point handed to a gradient-only entry point
 	call := func() {
 		switch e.routine {
 		case "bfgs":
@@ -438,7 +439,8 @@ func Run(c *core.Ctx) {
 					return nil
 				})
 				var xc ad.ConstVector
-				xc, err = rprop.RunGradient(gf, ad.NewDenseFloat64Vector(append([]float64(nil), e.x0...)), step0, eta, gargs...)
+				gx0 = ad.NewDenseFloat64Vector(append([]float64(nil), e.x0...))
+				xc, err = rprop.RunGradient(gf, gx0, step0, eta, gargs...)
 				if xc != nil {
 					xr = ad.NewDenseFloat64Vector(floats(xc))
 				}
@@ -468,6 +470,39 @@ func Run(c *core.Ctx) {
 				}}}
 			if e.cons != 0 {
 				args = append(args, adam.Constraints{Value: e.predicate})
+			}
+			if t.Bool(1, 3) {
+				// the gradient-only entry point (dense float64 fast path, default
+				// step size: the entry point takes no StepSize option); its hook
+				// receives no function value
+				e.routine = "adam.RunGradient"
+				gargs := []interface{}{adam.Epsilon{Value: eps}, adam.MaxIterations{Value: K},
+					adam.Hook{Value: func(x, g ad.ConstVector, y ad.ConstScalar) bool {
+						return e.hookCheck("adam.RunGradient", floats(x), 0, false, floats(g))
+					}}}
+				if e.cons != 0 {
+					gargs = append(gargs, adam.ConstConstraints{Value: func(x ad.ConstVector) bool {
+						e.consEvals++
+						return e.feasible(floats(x))
+					}})
+				}
+				gf := adam.DenseGradientF(func(x, grad ad.DenseFloat64Vector) error {
+					r, err := e.objective(gradientProbe(x))
+					if err != nil {
+						return err
+					}
+					for i := range grad {
+						grad[i] = r.GetDerivative(i)
+					}
+					return nil
+				})
+				var xc ad.ConstVector
+				gx0 = ad.NewDenseFloat64Vector(append([]float64(nil), e.x0...))
+				xc, err = adam.RunGradient(gf, gx0, gargs...)
+				if xc != nil {
+					xr = ad.NewDenseFloat64Vector(floats(xc))
+				}
+				break
 			}
 			xr, err = adam.Run(e.objective, x0, args...)
 		case "newton.RunCrit":
@@ -616,6 +651,11 @@ func Run(c *core.Ctx) {
 	for i := range e.x0 {
 		if x0.Float64At(i) != e.x0[i] {
 			c.Fail("x0-unchanged", e.routine+"|x0-moved", "%s moved the starting point it was given: %v -> %v", e.routine, e.x0, floats(x0))
+		}
+	}
+	for i := range gx0 {
+		if gx0[i] != e.x0[i] {
+			c.Fail("x0-unchanged", e.routine+"|x0-moved", "%s moved the starting point it was given: %v -> %v", e.routine, e.x0, []float64(gx0))
 		}
 	}
 	c.Nontriv = e.evals >= 3
@@ -786,15 +826,15 @@ func init() {
 			}},
 		},
 		StepUnit: "callbacks into the environment (objective evaluations, constraint evaluations, hook calls)",
-		Rule: "scenarios clean / faults: one run = one routine (BFGS, Rprop, gradient descent, Adam, Newton crit / min / root, line search) on one objective drawn from families with closed-form value, gradient, Hessian and optimum (SPD quadratics n=1..4 with condition number <= 100 built from drawn eigenvalues and rotations, Rosenbrock type, separable quartic, L2-regularised logistic loss, polynomial systems with planted roots), drawn start, epsilon, step sizes, eta, Hessian modification, optional constraint predicate (box / half space that holds at x0). The environment is the objective (derivatives handed back by the chain rule on the seeds stored in x), the constraint and the hook; in the fault scenario it injects up to two transient evaluation faults (error, NaN value, NaN gradient, biased to the first evaluations, i.e. inside the first line searches), a hook cancellation and small caps. Oracles over the recorded history: stopping condition re-evaluated in closed form at the returned point, distance to the minimiser on quadratics, constraint predicate at the returned point, hook arguments vs closed form at the hook's x, strong Wolfe conditions, x0 unchanged. Scenario line-search: the line search alone on rays through a family whose slope grows, shrinks and changes sign (sum of cosines plus a small quadratic; also the other non-convex families), first trial steps from 0.01 to 10, optional step constraint. Scenarios saga / saga-faults: saga.Run with the four objective types (Objective1Dense, Objective2Dense, Objective1Sparse, Objective2Sparse) on sum-of-squares problems, regularisation none (an identity proximal operator owned by the environment) / Tikhonov / l1, drawn step size 1/(3..6 L), epsilon, cap and Seed (SAGA's own sampling is seeded from the tape); faults: an evaluation that returns an error or NaN at a drawn call, hook cancellation, small caps; oracles: stated step criterion re-evaluated between the last published iterate and the returned point, distance to the analytic minimiser, hook arguments (relative step, lambda, epoch), an objective error is returned and never swallowed, no NaN point with err == nil. Scenarios blahut / blahut-faults: blahut.Run / RunNaive on drawn channels (2..4 inputs and outputs, zero entries for Run), drawn full-support start and step count, optional hook cancellation. Non-trivial = at least 3 evaluations. Distinct = (routine, exit reason, dimension, fault pattern, constraint kind, hook, family).",
+		Rule: "scenarios clean / faults: one run = one routine (BFGS, Rprop and rprop.RunGradient, gradient descent, Adam and adam.RunGradient, Newton crit / min / root, line search) on one objective drawn from families with closed-form value, gradient, Hessian and optimum (SPD quadratics n=1..4 with condition number <= 100 built from drawn eigenvalues and rotations, Rosenbrock type, separable quartic, L2-regularised logistic loss, polynomial systems with planted roots), drawn start, epsilon, step sizes, eta, Hessian modification, optional constraint predicate (box / half space that holds at x0). The environment is the objective (derivatives handed back by the chain rule on the seeds stored in x), the constraint and the hook; in the fault scenario it injects up to two transient evaluation faults (error, NaN value, NaN gradient, biased to the first evaluations, i.e. inside the first line searches), a hook cancellation and small caps. Oracles over the recorded history: stopping condition re-evaluated in closed form at the returned point, distance to the minimiser on quadratics, constraint predicate at the returned point, hook arguments vs closed form at the hook's x, strong Wolfe conditions, x0 unchanged. Scenario line-search: the line search alone on rays through a family whose slope grows, shrinks and changes sign (sum of cosines plus a small quadratic; also the other non-convex families), first trial steps from 0.01 to 10, optional step constraint. Scenarios saga / saga-faults: saga.Run with the four objective types (Objective1Dense, Objective2Dense, Objective1Sparse, Objective2Sparse) and WrapperDense (components written with the library's scalars, gradient by automatic differentiation) on sum-of-squares problems, regularisation none (an identity proximal operator owned by the environment) / Tikhonov / l1 / l2 norm / l1 by just-in-time updates (JitUpdateL1, also with lambda = 0, i.e. plain SAGA with lazily applied steps, judged against the analytic minimiser), drawn step size 1/(3..6 L), epsilon, cap and Seed (SAGA's own sampling is seeded from the tape); faults: an evaluation that returns an error or NaN at a drawn call, hook cancellation, small caps; oracles: stated step criterion re-evaluated between the last published iterate and the returned point, distance to the analytic minimiser, hook arguments (relative step, lambda, epoch), an objective error is returned and never swallowed, no NaN point with err == nil. Scenarios blahut / blahut-faults: blahut.Run / RunNaive on drawn channels (2..4 inputs and outputs, zero entries for Run), drawn full-support start and step count, optional hook cancellation. Non-trivial = at least 3 evaluations. Distinct = (routine, exit reason, dimension, fault pattern, constraint kind, hook, family).",
 		Assumptions: []string{
 			"a run that ends with an error, a panic, a hook stop or at its iteration cap is not judged by the stopping-condition oracle",
 			"slack on epsilon: 1e-6 relative + 1e-12; hook arguments compared to 1e-9 relative",
-			"SAGA: the minimiser is judged on strictly convex least-squares problems (no or Tikhonov regularisation) with at least d+8 components and no zero data row, after at least four epochs, with the tolerance 1e6 * (largest of the last five relative steps) * |x| / (n*gamma*mu) (SAGA's stale-gradient table makes the distance lag behind the step; the factor is three decades above the largest ratio seen in 1e6 calibration runs); the l1-regularised problem is not a quadratic and only its stopping rule, hook and error reporting are judged",
+			"SAGA: the minimiser is judged on strictly convex least-squares problems (no or Tikhonov regularisation) with at least d+8 components and no zero data row, after at least four epochs, with the tolerance 1e6 * (largest of the last five relative steps) * |x| / (n*gamma*mu) (SAGA's stale-gradient table makes the distance lag behind the step; the factor is three decades above the largest ratio seen in 1e6 calibration runs); the l1- and l2-norm-regularised problems are not quadratics and only their stopping rule, hook and error reporting are judged",
 			"Blahut-Arimoto has no stopping rule (it performs the steps it is given): judged are Arimoto's bound C - I(p_k) <= max_i ln(1/p0_i)/k against a reference capacity computed by the environment, the hook's J against the lower bound recomputed from the previous iterate, monotonicity of J, J <= C, iterates being distributions, number of steps performed; RunNaive only on strictly positive channels (it does not implement 0 log 0 = 0)",
 			"termination is not judged here (C20); a run aborted by the step clock is counted",
 		},
-		RealCode:     []string{"algorithm/bfgs, rprop, gradientDescent, adam, newton, lineSearch (and what they call: matrixInverse, cholesky, qrAlgorithm), algorithm/saga (dense and sparse variants, proximal operators, EvalStopping), algorithm/blahut (Run, RunNaive)"},
+		RealCode:     []string{"algorithm/bfgs, rprop, gradientDescent, adam, newton, lineSearch (and what they call: matrixInverse, cholesky, qrAlgorithm), algorithm/saga (dense, sparse and just-in-time variants, WrapperDense, proximal operators, EvalStopping), algorithm/blahut (Run, RunNaive)"},
 		Stubs:        []string{"objective, constraint predicate, hook (the environment)"},
 		Caps:         map[string]int{"dimension": 4, "iteration_cap": 2000, "faults_per_run": 2},
 		QuickRuns:    180000,
